@@ -3,6 +3,7 @@
   conditions, logical operators and local assignments emits:
 
       MOVE MOVEN LOADK LOADBOOL(with skip) LOADNIL NOT TEST TESTSET EQ LT LE JMP NOP
+      ADD SUB MUL DIV MOD POW (opArith: RK operands) UNM LEN CONCAT (stringConcat over R(B)..R(C), right to left)
       + EVAL r id    pseudo-instruction: one opaque single-register computation (real code: GETGLOBAL r K"g<id>")
       + SETG r id    pseudo-instruction: global store (real code: SETGLOBAL r K"g<id>"), only in statement contexts
       + RETURN / other ABC instructions, on which the machine halts (they end an observation).
@@ -17,12 +18,15 @@ import GLua.Generated.Consts
 import GLua.Spec.CondAst
 
 namespace GLua.MiniVM
+open GLua.Compile (NumStruct ArithOp)
 
 /-- constants of the pool (`FunctionProto.Constants`) that this fragment creates. -/
-inductive Konst where
-  | num (n : Int)        -- LNumber (integral, never NaN in this fragment)
-  | str (s : String)     -- LString
-deriving DecidableEq, Repr, Inhabited
+inductive Konst [NumStruct] where
+  | num (x : NumStruct.N)   -- LNumber (a numeral as written or the result of constant folding; may be NaN)
+  | str (s : String)        -- LString
+deriving DecidableEq
+
+instance [NumStruct] : Inhabited Konst := ⟨.str ""⟩
 
 /-- decoded instructions. `jmp`/`nop` carry the sBx operand: a LABEL ID before `patchCode`, a DISTANCE after. -/
 inductive Instr where
@@ -41,6 +45,10 @@ inductive Instr where
   | nop (sbx : Int)             -- a JMP whose opcode was overwritten by OP_NOP (operand bits are kept)
   | eval (a id : Nat)           -- GETGLOBAL a K("g<id>")
   | setg (a id : Nat)           -- SETGLOBAL a K("g<id>")
+  | arith (op : ArithOp) (a b c : Nat)   -- OP_ADD … OP_POW: R(A) := RK(B) op RK(C)
+  | unm (a b : Nat)             -- OP_UNM:  R(A) := -RK(B)
+  | len (a b : Nat)             -- OP_LEN:  R(A) := #RK(B)
+  | concat (a b c : Nat)        -- OP_CONCAT: R(A) := R(B) .. … .. R(C)
   | ret (a b : Nat)             -- RETURN a b 0
   | abc (op a b c : Nat)        -- any other instruction of a context (e.g. VARARG); the MiniVM halts on it
 deriving DecidableEq, Repr, Inhabited
@@ -48,13 +56,15 @@ deriving DecidableEq, Repr, Inhabited
 /-- `opGetArgA` of the encoded instruction. -/
 def Instr.argA : Instr → Nat
   | .move a _ | .moven a _ _ | .loadk a _ | .loadbool a _ _ | .loadnil a _ | .not a _ | .test a _ _
-  | .testset a _ _ | .eq a _ _ | .lt a _ _ | .le a _ _ | .eval a _ | .setg a _ | .ret a _ | .abc _ a _ _ => a
+  | .testset a _ _ | .eq a _ _ | .lt a _ _ | .le a _ _ | .eval a _ | .setg a _ | .ret a _ | .abc _ a _ _
+  | .arith _ a _ _ | .unm a _ | .len a _ | .concat a _ _ => a
   | .jmp _ | .nop _ => 0
 
 /-- `opGetArgB` for the ABC-format instructions the VM decodes generically (MOVEN's followers). -/
 def Instr.argB : Instr → Nat
   | .move _ b | .moven _ b _ | .loadbool _ b _ | .loadnil _ b | .not _ b | .test _ b _ | .testset _ b _
-  | .eq _ b _ | .lt _ b _ | .le _ b _ | .ret _ b | .abc _ _ b _ => b
+  | .eq _ b _ | .lt _ b _ | .le _ b _ | .ret _ b | .abc _ _ b _
+  | .arith _ _ b _ | .unm _ b | .len _ b | .concat _ b _ => b
   | _ => 0
 
 def Instr.isJmp : Instr → Bool
@@ -64,6 +74,8 @@ def Instr.isJmp : Instr → Bool
 def Instr.isMove : Instr → Bool
   | .move _ _ => true
   | _ => false
+
+variable [NumStruct]
 
 abbrev Env := GLua.Compile.Dom
 
@@ -80,7 +92,7 @@ structure VM (V : Type) where
 inductive Outcome (V : Type) where
   | ok (s : VM V)
   | halt (s : VM V)                  -- RETURN / foreign instruction reached (pc = that instruction)
-  | luaError (site : String)         -- a comparison raised
+  | luaError (site : String)         -- a comparison / arithmetic / concatenation / length operation raised
   | goPanic (site : String)
 
 def setReg {V} (regs : Nat → V) (a : Nat) (v : V) : Nat → V := fun i => if i = a then v else regs i
@@ -100,6 +112,26 @@ def movenLoop {V} (code : List Instr) : Nat → Nat → (Nat → V) → Option (
     match code[pc]? with
     | none => none
     | some i => movenLoop code n (pc + 1) (setReg regs i.argA (regs i.argB))
+
+/-- `stringConcat(L, total, last)` on R(b) … R(b+n): starting from `acc` = the value of the last register, the
+    operands are joined from right to left (`acc := R(i) .. acc` for i = b+n-1 downto b); `none` = raises. -/
+def concatFold {V} (env : Env V) (regs : Nat → V) (b : Nat) : Nat → V → Option V
+  | 0, acc => some acc
+  | n + 1, acc =>
+    match env.concat (regs (b + n)) acc with
+    | none => none
+    | some v => concatFold env regs b n v
+
+/-- the value `OP_CONCAT A B C` stores: R(B) .. … .. R(C). -/
+def concatVal {V} (env : Env V) (regs : Nat → V) (b c : Nat) : Option V :=
+  concatFold env regs b (c - b) (regs c)
+
+/-- a value-producing instruction whose operation may raise. -/
+def opStep {V} (s : VM V) (pc1 a : Nat) (r : Option (Option V)) (site : String) : Outcome V :=
+  match r with
+  | none => .goPanic "Constants[index out of range]"
+  | some none => .luaError site
+  | some (some v) => .ok { s with pc := pc1, regs := setReg s.regs a v }
 
 def cmpStep {V} (s : VM V) (pc1 : Nat) (a : Nat) (r : Option (Option Bool)) (site : String) : Outcome V :=
   match r with
@@ -153,6 +185,12 @@ def step {V} (env : Env V) (code : List Instr) (consts : List Konst) (s : VM V) 
     | .nop _ => .ok { s with pc := pc1 }
     | .eval a id => .ok { s with pc := pc1, regs := setReg s.regs a (s.globs id) }
     | .setg a id => .ok { s with pc := pc1, globs := setReg s.globs id (s.regs a) }
+    | .arith op a b c =>
+      -- opArith: lhs := rkValue(B); rhs := rkValue(C); numberArith / objectArith (coercion, else error)
+      opStep s pc1 a (do let x ← rkValue env consts s.regs b; let y ← rkValue env consts s.regs c; pure (env.arith op x y)) "arith"
+    | .unm a b => opStep s pc1 a (do let x ← rkValue env consts s.regs b; pure (env.unm x)) "unm"
+    | .len a b => opStep s pc1 a (do let x ← rkValue env consts s.regs b; pure (env.len x)) "len"
+    | .concat a b c => opStep s pc1 a (some (concatVal env s.regs b c)) "concat"
     | .ret _ _ => .halt s
     | .abc _ _ _ _ => .halt s
 
